@@ -87,14 +87,54 @@ fn check_value(v: u64, with_poll: bool) -> Result<(), String> {
 }
 
 /// Feeds `0x30 ++ varint` (a PUBLISH header) and nothing else to the poll decoder and inspects the state it built.
-/// `expect`: Some(v) = var-int is complete with value v; None = caller checks the error itself.
+/// The header is delivered in one read, one byte per read with a Pending before every byte, and the
+/// same with the future dropped and re-created at every Pending; all three must agree.
+/// `expect`: Some((v, w)) = var-int is complete with value v in w bytes; None = caller checks the error itself.
 fn poll_header<F: Family>(varint: &[u8], expect: Option<(u64, usize)>) -> Result<Result<(), F::Error>, String> {
+    let first = poll_header_mode::<F>(varint, expect, 0)?;
+    for mode in 1..3 {
+        let other = poll_header_mode::<F>(varint, expect, mode)?;
+        if other != first {
+            return Err(format!(
+                "{} poll header machine on 30{}: result {:?} when the header arrives byte by byte with Pending in between ({}), {:?} in one read",
+                F::FAM.name(),
+                hex(varint),
+                other,
+                if mode == 2 { "future re-created at every Pending" } else { "same future" },
+                first
+            ));
+        }
+    }
+    Ok(first)
+}
+
+fn poll_header_mode<F: Family>(varint: &[u8], expect: Option<(u64, usize)>, mode: u8) -> Result<Result<(), F::Error>, String> {
+    use std::future::Future;
     let mut data = vec![0x30u8];
     data.extend_from_slice(varint);
-    let steps: [Step; 0] = [];
+    let steps: Vec<Step> = if mode == 0 { Vec::new() } else { (0..data.len() * 2 + 2).map(|i| if i % 2 == 0 { Step::Pending } else { Step::Chunk(1) }).collect() };
     let mut reader = ScriptedReader::new(&data, &steps);
     let mut state: GenericPollPacketState<F::Header> = GenericPollPacketState::default();
-    let (res, _) = crate::sio::drive(mqtt_proto::GenericPollPacket::new(&mut state, &mut reader), 8);
+    let waker = crate::sio::noop_waker();
+    let mut cx = std::task::Context::from_waker(&waker);
+    let mut polls = 0;
+    let res = 'outer: loop {
+        let mut fut = mqtt_proto::GenericPollPacket::new(&mut state, &mut reader);
+        loop {
+            polls += 1;
+            if polls > 64 {
+                return Err(format!("{} poll header machine on 30{} does not finish", F::FAM.name(), hex(varint)));
+            }
+            match std::pin::Pin::new(&mut fut).poll(&mut cx) {
+                std::task::Poll::Ready(r) => break 'outer r,
+                std::task::Poll::Pending => {
+                    if mode == 2 {
+                        continue 'outer;
+                    }
+                }
+            }
+        }
+    };
     let res = res.map(|_| ());
     if let Some((v, w)) = expect {
         match &state {
@@ -102,9 +142,10 @@ fn poll_header<F: Family>(varint: &[u8], expect: Option<(u64, usize)>) -> Result
                 let rl = mqtt_proto::PollHeader::remaining_len(&b.header);
                 if b.total != v as usize + 1 + w || b.buf.len() != v as usize || rl != v as usize || b.idx != 0 {
                     return Err(format!(
-                        "{} poll header machine on {}: total {}, buffer {}, remaining_len {}, idx {}; expected total {}, buffer {}",
+                        "{} poll header machine on {} (delivery mode {}): total {}, buffer {}, remaining_len {}, idx {}; expected total {}, buffer {}",
                         F::FAM.name(),
                         hex(&data),
+                        mode,
                         b.total,
                         b.buf.len(),
                         rl,
@@ -115,7 +156,7 @@ fn poll_header<F: Family>(varint: &[u8], expect: Option<(u64, usize)>) -> Result
                 }
             }
             GenericPollPacketState::Header(h) => {
-                return Err(format!("{} poll header machine on {} stayed in the header state {:?} (result {:?})", F::FAM.name(), hex(&data), h, res));
+                return Err(format!("{} poll header machine on {} (delivery mode {}) stayed in the header state {:?} (result {:?})", F::FAM.name(), hex(&data), mode, h, res));
             }
         }
         match &res {
